@@ -251,6 +251,17 @@ class NPShim:
         return real_np.arange(*[int(x) for x in a]).view(SArr)
 
     def array(self, x, dtype=None, **kw):
+        if dtype is not None and not _is_bool_dtype(dtype) and not _is_complex_dtype(dtype):
+            try:
+                isint = real_np.dtype(dtype).kind in 'iu'
+            except TypeError:
+                isint = dtype is int
+            if isint:
+                # an integer dtype was requested: booleans become 0/1 (numpy semantics), symbolic booleans too
+                a = real_np.array(x, dtype=object) if not isinstance(x, real_np.ndarray) else x.astype(object)
+                f = real_np.frompyfunc(lambda v: (v.as_int() if isinstance(v, SV) else (int(v) if isinstance(v, (bool, real_np.bool_)) else v)), 1, 1)
+                out = f(a) if a.size else a
+                return real_np.asarray(out, dtype=object).reshape(a.shape).view(SArr)
         if isinstance(x, real_np.ndarray) and x.dtype == bool:
             return x.copy().view(SArr)
         if isinstance(x, real_np.ndarray):
@@ -261,9 +272,9 @@ class NPShim:
         return a.view(SArr)
 
     def asarray(self, x, dtype=None, **kw):
-        if isinstance(x, real_np.ndarray):
+        if isinstance(x, real_np.ndarray) and dtype is None:
             return x
-        return self.array(x)
+        return self.array(x, dtype=dtype)
 
     # ---- reductions / elementwise with symbolic semantics
     def sum(self, a, axis=None, **kw):
